@@ -431,6 +431,7 @@ class _resolve_called_lambdas(ast.NodeTransformer):
 
     def __init__(self):
         self._arg_map_list = []
+        self._known_names: Optional[set] = None
 
     def visit_Call(self, node: ast.Call) -> Any:
         # Check if the function being called is a lambda
@@ -464,6 +465,14 @@ class _resolve_called_lambdas(ast.NodeTransformer):
             return False
         return all(k.arg is not None for k in node.keywords)
 
+    def visit(self, node: ast.AST) -> Any:
+        if self._known_names is None:
+            # Every name in what we are asked to work on: a binder we rename must not
+            # get one of them.
+            self._known_names = {n.id for n in ast.walk(node) if isinstance(n, ast.Name)}
+            self._known_names |= {n.arg for n in ast.walk(node) if isinstance(n, ast.arg)}
+        return super().visit(node)
+
     def _bind(self, mapping: _lambda_scope, name: str) -> str:
         """Record in `mapping` that `name` is bound by a nested lambda or comprehension. It gets
         a new name if it would capture a name that is free in an argument we are substituting.
@@ -478,8 +487,11 @@ class _resolve_called_lambdas(ast.NodeTransformer):
         }
         new_name = name
         if name in free_in_args:
-            _resolve_called_lambdas._rename_counter += 1
-            new_name = f"{name}_r{_resolve_called_lambdas._rename_counter}"
+            while new_name in free_in_args or new_name in (self._known_names or ()):
+                _resolve_called_lambdas._rename_counter += 1
+                new_name = f"{name}_r{_resolve_called_lambdas._rename_counter}"
+            assert self._known_names is not None
+            self._known_names.add(new_name)
         mapping[name] = ast.Name(new_name, ast.Load())
         return new_name
 
